@@ -88,6 +88,8 @@ def prog_t(prog):
         rt = {"collect": "RCollect", "one": "ROne", "sum": "RSum", "equalself": "REqualSelf"}.get(r[0])
         if r[0] == "last":
             rt = "(RLast %s)" % z(r[1])
+        if r[0] == "equal":
+            rt = "(REqual [%s])" % "; ".join(pipe_t(q) for q in r[1])
         return "(Reduce %s %s)" % (rt, "true" if prog.get("live", True) else "false")
     ops = []
     for s in prog["steps"]:
@@ -269,7 +271,7 @@ class PipeGen:
     def vals(self):
         r = self.rng
         n = r.choice([0, 1, 1, 2, 3, 4, 6])
-        style = r.choice(["rand", "rand", "allequal", "alternating", "runstart", "runend", "ascending"])
+        style = r.choice(["rand", "rand", "allequal", "alternating", "runstart", "runend", "ascending", "zerotail"])
         if style == "allequal":
             return [r.randint(0, 5)] * n
         if style == "alternating":
@@ -278,6 +280,9 @@ class PipeGen:
         if style == "ascending":
             return list(range(n))
         l = [r.randint(0, 9) for _ in range(n)]
+        if style == "zerotail" and n >= 1:
+            for i in range(r.randint(1, n)):
+                l[n - 1 - i] = 0
         if style == "runstart" and n >= 2:
             l[1] = l[0]
         if style == "runend" and n >= 2:
@@ -363,9 +368,38 @@ class PipeGen:
             return {"t": "chunk", "n": r.choice([1, 1, 2, 2, 3, 5]), "p": self.pz(depth - 1)}
         return {"t": "runs", "r": self.rel(), "take": r.choice([None, None, 1, 2]), "p": self.pz(depth - 1)}
 
+    def equal_others(self, pipe):
+        """Other pipelines for Equal: plain slices derived from the documented sequence of pipe."""
+        r = self.rng
+        try:
+            base = den(pipe)
+        except Exception:
+            base = [1, 2]
+        others = []
+        for _ in range(r.choice([0, 1, 1, 2, 3])):
+            v = list(base)
+            k = r.choice(["same", "same", "shorter", "dropzeros", "longer0", "longer", "differ"])
+            if k == "shorter" and v:
+                v = v[:-1]
+            elif k == "dropzeros":
+                while v and v[-1] == 0:
+                    v.pop()
+            elif k == "longer0":
+                v = v + [0] * r.choice([1, 2])
+            elif k == "longer":
+                v = v + [r.randint(1, 9)]
+            elif k == "differ" and v:
+                i = r.randrange(len(v))
+                v[i] = v[i] + 1
+            self.nid += 1
+            others.append({"t": "src", "id": self.nid - 1, "src": {"k": "slice", "l": v}})
+        return others
+
     def program(self, pipe, total_guess):
         r = self.rng
         listp = is_list_pipe(pipe)
+        if not listp and self.kind == "iter" and documented_domain(pipe) and r.random() < 0.2:
+            return {"reduce": ["equal", self.equal_others(pipe)], "live": True}
         if not listp and r.random() < 0.35:
             red = r.choice([["collect"], ["last", r.choice([0, 1, 2, max(0, total_guess - 1), total_guess, total_guess + 1])], ["one"], ["sum"]] +
                            ([["equalself"]] if self.kind == "iter" else []))
@@ -491,6 +525,8 @@ class PipeSpec(SeqSpec):
                     exp = ["val", [sum(want)]]
                 elif red[0] == "equalself":
                     exp = ["val", [1]]
+                elif red[0] == "equal":
+                    exp = ["val", [1 if all(den(q) == want for q in red[1]) else 0]]
                 elif red[0] == "one":
                     if self.kind == "iter":
                         exp = ["val", want] if len(want) == 1 else ["end"]
